@@ -423,32 +423,41 @@ def check_enforcement(ck, R):
         ck.ob(R, fa.key(None, "validate-before-dispatch"), ok, "%s validates the dependency before dispatching" % name if ok else
               "%s can dispatch without _validate_dependency(): an undeclared dependency is executed and its changes never invalidate the caller" % name, fa.where())
     v = FA(ck, MF + "._validate_dependency")
+    # everything below is decided on EXPANSIONS (locals replaced by what they were assigned), so
+    # the names of the temporaries do not matter
+    FRAME = "CallStack.get().get_calling_frame()"
+    CALLER = FRAME + ".memento.invocation_metadata.fn_reference_with_args.fn_reference.memento_fn"
     rets = v.returns()
-    allowed = {"frame is None", "caller.explicit_version is not None"}
-    tests = [A.norm(v.enclosing(r, ast.If).test) if v.enclosing(r, ast.If) is not None else "<unconditional>" for r in rets]
+    allowed = {FRAME + " is None", CALLER + ".explicit_version is not None"}
+    tests = [v.xnorm(v.enclosing(r, ast.If).test) if v.enclosing(r, ast.If) is not None else "<unconditional>" for r in rets]
     ok = set(tests) <= allowed
     ck.ob(R, v.key(None, "early-exits"), ok, "validation is skipped only without a caller or for an explicitly versioned caller" if ok else
           "validation has an additional early exit: %s" % sorted(set(tests) - allowed), v.where())
     rs = [r for r in v.stmts(ast.Raise) if isinstance(r.exc, ast.Call) and A.call_attr(r.exc) == "UndeclaredDependencyError"]
     okr = len(rs) == 1
+    valid = None
     if okr:
         g = v.enclosing(rs[0], ast.If)
-        t = A.norm(g.test) if g is not None else ""
-        okr = "self.fn_reference().qualified_name not in valid_fns" in t and "caller.qualified_name_without_version != self.qualified_name_without_version" in t \
-            and isinstance(g.test, ast.BoolOp) and isinstance(g.test.op, ast.And) and len(g.test.values) == 2
+        okr = g is not None and isinstance(g.test, ast.BoolOp) and isinstance(g.test.op, ast.And) and len(g.test.values) == 2
+        if okr:
+            atoms = {v.xnorm(a, v.nodes(g.test)[0]) for a in g.test.values}
+            memb = [a for a in g.test.values if isinstance(a, ast.Compare) and len(a.ops) == 1 and isinstance(a.ops[0], ast.NotIn)
+                    and v.xnorm(a.left, v.nodes(g.test)[0]) == "self.fn_reference().qualified_name" and isinstance(a.comparators[0], ast.Name)]
+            okr = len(memb) == 1 and (CALLER + ".qualified_name_without_version != self.qualified_name_without_version") in atoms
+            if memb:
+                valid = memb[0].comparators[0].id
     ck.ob(R, v.key(None, "raises-when-outside"), okr, "a callee outside the caller's closure (and not the caller itself) is refused" if okr else
-          "the undeclared-dependency error is not raised exactly when the callee is outside valid_fns and is not the caller itself", v.where())
-    vf = [s for s in v.stmts(ast.Assign) if any(isinstance(t, ast.Name) and t.id == "valid_fns" for t in s.targets)]
+          "the undeclared-dependency error is not raised exactly when the callee is outside the valid set and is not the caller itself", v.where())
+    vf = [s for s in v.stmts(ast.Assign) if valid is not None and any(isinstance(t, ast.Name) and t.id == valid for t in s.targets)]
     okv = len(vf) == 1 and "call:transitive_memento_fn_dependencies" in v.deps(vf[0].value) and "call:dependencies" in v.deps(vf[0].value) and \
         any(d.endswith("memento_fn") and d.startswith(("attr:", "getattr:")) for d in v.deps(vf[0].value))
     ck.ob(R, v.key(vf[0] if vf else None, "closure-source"), okv, "valid callees = the caller's transitive memento dependencies" if okv else
-          "valid_fns is not built from the calling function's transitive memento dependencies", v.where())
-    aug = [s for s in v.stmts(ast.AugAssign) if A.norm(s.target) == "valid_fns"]
-    oka = all(A.norm(s.value) == "fn_ref_args" for s in aug) and len(aug) <= 1
+          "the set of valid callees is not built from the calling function's transitive memento dependencies", v.where())
+    aug = [s for s in v.stmts(ast.AugAssign) if valid is not None and A.norm(s.target) == valid]
+    oka = len(aug) <= 1 and all(v.xnorm(s.value).startswith("self._extract_fn_ref_args(") for s in aug)
     ck.ob(R, v.key(None, "only-arguments-added"), oka, "only function references passed as arguments extend the closure" if oka else
-          "valid_fns is extended by something other than function-reference arguments", v.where())
-    cr = [s for s in v.stmts(ast.Assign) if any(isinstance(t, ast.Name) and t.id == "frame" for t in s.targets)]
-    okf = len(cr) == 1 and A.norm(cr[0].value) == "CallStack.get().get_calling_frame()"
+          "the valid set is extended by something other than function-reference arguments", v.where())
+    okf = any(FRAME in t for t in tests) and okr
     ck.ob(R, v.key(None, "caller-from-stack"), okf, "the caller is the top frame of this thread's call stack" if okf else
           "the caller is not taken from CallStack.get().get_calling_frame()", v.where())
 
@@ -679,10 +688,12 @@ def check_update_protocol(ck, R):
     cfg = fa.cfg
     rec = fa.nodes_all(fa.calls("_recompute_version"))
     ck.need(rec, "_update_dependencies: _recompute_version call not found")
-    gen_tests = [n.id for n in cfg.nodes if n.kind == "test" and "as_of_generation" in A.norm(n.ast) and "_global_fn_generation" in A.norm(n.ast)]
-    chg_tests = [n.id for n in cfg.nodes if n.kind == "test" and "changed_rules" in A.norm(n.ast)]
-    exp_tests = [n.id for n in cfg.nodes if n.kind == "test" and A.norm(n.ast) == "self.explicit_version is not None"]
-    lock_tests = [n.id for n in cfg.nodes if n.kind == "test" and "cluster.locked" in A.norm(n.ast)]
+    # tests are recognised on their expansion (locals replaced by what they were assigned)
+    xt = {n.id: fa.xnorm(n.ast, n.id) for n in cfg.nodes if n.kind == "test"}
+    gen_tests = [i for i, t in xt.items() if "as_of_generation" in t and "_global_fn_generation" in t]
+    chg_tests = [i for i, t in xt.items() if "did_change()" in t]
+    exp_tests = [i for i, t in xt.items() if t == "self.explicit_version is not None"]
+    lock_tests = [i for i, t in xt.items() if ".locked" in t and "get_cluster(" in t]
     ok_shape = len(gen_tests) == 1 and len(chg_tests) == 1 and len(exp_tests) == 1 and len(lock_tests) == 1
     ck.ob(R, fa.key(None, "shape"), ok_shape, "explicit-version, locked-cluster, generation and changed-rule tests present" if ok_shape else
           "_update_dependencies no longer has exactly one explicit-version / locked / generation / changed-rules test", fa.where())
@@ -693,7 +704,9 @@ def check_update_protocol(ck, R):
     ck.ob(R, fa.key(gt, "generation-equal"), okeq, "the cache entry must be of exactly the current generation" if okeq else
           "the generation test is not an equality: an entry computed before newer definitions is trusted", fa.where(gt))
     ct = cfg.node(chg_tests[0]).ast
-    okct = A.norm(ct) in ("len(changed_rules) > 0", "changed_rules", "len(changed_rules) != 0")
+    okct = isinstance(ct, ast.Name) or (
+        isinstance(ct, ast.Compare) and len(ct.ops) == 1 and isinstance(ct.ops[0], (ast.Gt, ast.NotEq)) and A.norm(ct.comparators[0]) == "0"
+        and isinstance(ct.left, ast.Call) and A.norm(ct.left.func) == "len" and len(ct.left.args) == 1 and isinstance(ct.left.args[0], ast.Name))
     ck.ob(R, fa.key(ct, "changed-test"), okct, "any changed rule counts" if okct else "the changed-rules test is not 'non-empty'", fa.where(ct))
     # (a) normal exits that keep the cached version: paths to exit avoiding recompute and the explicit/locked exits
     def edge_ok(s, d, l):
@@ -715,9 +728,11 @@ def check_update_protocol(ck, R):
           "the cached version is kept only for a current-generation entry with no changed rule" if ok_a else
           "the cached version can be kept without (entry of the current generation AND no rule changed)", fa.where())
     # changed rules are computed from did_change over the current hash rules
-    cr = [s for s in fa.stmts(ast.Assign) if any(isinstance(t, ast.Name) and t.id == "changed_rules" for t in s.targets)]
-    okcr = len(cr) == 1 and isinstance(cr[0].value, ast.ListComp) and A.norm(cr[0].value.generators[0].iter) == "self._hash_rules" \
-        and [A.norm(c) for c in cr[0].value.generators[0].ifs] == ["rule.did_change()"]
+    cr = [s for s in fa.stmts(ast.Assign) if any(A.call_attr(c) == "did_change" for c in A.calls_in(s.value))]
+    okcr = len(cr) == 1 and isinstance(cr[0].value, ast.ListComp) and len(cr[0].value.generators) == 1 \
+        and A.norm(cr[0].value.generators[0].iter) == "self._hash_rules" and isinstance(cr[0].value.generators[0].target, ast.Name) \
+        and [A.norm(c) for c in cr[0].value.generators[0].ifs] == [cr[0].value.generators[0].target.id + ".did_change()"] \
+        and A.norm(cr[0].value.elt) == cr[0].value.generators[0].target.id
     ck.ob(R, fa.key(cr[0] if cr else None, "all-rules-asked"), okcr, "every current hash rule is asked did_change()" if okcr else
           "changed_rules is not [rule for rule in self._hash_rules if rule.did_change()]", fa.where())
     # (b) changed => bump and recompute
@@ -739,11 +754,12 @@ def check_update_protocol(ck, R):
                 ok_c = False
         v = stores[0].value
         ok_c = ok_c and isinstance(v, ast.Call) and A.norm(A.kwarg(v, "as_of_generation")) == "MementoFunction._global_fn_generation" \
-            and A.norm(A.kwarg(v, "version")) == "version" and A.norm(stores[0].targets[0].slice) == "self.qualified_name_without_version"
+            and A.kwarg(v, "version") is not None and fa.xnorm(A.kwarg(v, "version"), fa.nodes(stores[0])[0]) == "self._recompute_version()" \
+            and A.norm(stores[0].targets[0].slice) == "self.qualified_name_without_version"
     ck.ob(R, fa.key(stores[0] if stores else None, "cache-store"), ok_c, "each recomputation stores (current generation, version) under the function's name" if ok_c else
           "a recomputation can finish without storing a cache entry stamped with the current generation and the new version", fa.where())
-    vdef = [s for s in fa.stmts(ast.Assign) if any(isinstance(t, ast.Name) and t.id == "version" for t in s.targets)]
-    ok_v = len(vdef) == 1 and A.norm(vdef[0].value) == "self._recompute_version()"
+    vdef = [s for s in fa.stmts(ast.Assign) if A.norm(s.value) == "self._recompute_version()"]
+    ok_v = len(vdef) == 1 and len(fa.calls("_recompute_version")) == 1 and len(vdef[0].targets) == 1 and isinstance(vdef[0].targets[0], ast.Name)
     ck.ob(R, fa.key(None, "version-is-recomputed"), ok_v, "`version` is the freshly recomputed version" if ok_v else
           "`version` is not assigned from self._recompute_version() exactly once", fa.where())
     # (d) every assignment to _calculated_version is followed by _update_fn_reference
@@ -764,7 +780,7 @@ def check_update_protocol(ck, R):
         ck.ob(R, fa.key(s_, "version-from-own-evaluation"), own, "the calculated version comes from this instance's own recomputation" if own else
               "`%s` adopts a version from the shared cache without evaluating any rule: an unregistered wrapper (empty rule list) keeps that "
               "version for ever, also after a tracked variable changed" % A.short(s_, 60), fa.where(s_))
-    neq = [n for n in cfg.nodes if n.kind == "test" and A.norm(n.ast) == "self._calculated_version != version"]
+    neq = [i for i, t in xt.items() if t == "self._calculated_version != self._recompute_version()"]
     ck.ob(R, fa.key(None, "adopts-new-version"), len(neq) == 1, "a differing recomputed version is adopted" if len(neq) == 1 else
           "the updater does not compare the calculated version with the recomputed one", fa.where())
     # (e) locked-cluster early exit guarded by 'already has a calculated version'
@@ -776,7 +792,8 @@ def check_update_protocol(ck, R):
         if isinstance(n, ast.If) and A.norm(n.test) == "self._calculated_version is not None":
             outer_if = n
         n = fa.pm.get(n)
-    ok_e = outer_if is not None and "cluster is not None" in A.norm(lt)
+    ok_e = outer_if is not None and any(isinstance(a, ast.Compare) and isinstance(a.ops[0], ast.IsNot) and A.norm(a.comparators[0]) == "None"
+                                        and "get_cluster(" in fa.xnorm(a.left, lock_tests[0]) for a in A.conj_atoms(lt))
     ck.ob(R, fa.key(lt, "locked-needs-version"), ok_e, "a locked cluster freezes only an already calculated version" if ok_e else
           "the locked-cluster exit is not guarded by `self._calculated_version is not None`: a never-computed version stays None", fa.where(lt))
     # registration bumps the generation before registering
